@@ -121,8 +121,8 @@ func genC20(seed uint64) *Scenario {
 		case "merge", "merge_err", "merge_warn":
 			for k := 0; k < r.Range(1, 3); k++ {
 				j := r.Intn(slots+1) - 1 // -1 = nil operand
-				if j == st.I {
-					continue
+				if j == st.I && !r.Chance(250) {
+					continue // the receiver as its own operand: sometimes (plain results only, see the runner)
 				}
 				dup := false
 				for _, o := range st.J {
@@ -130,7 +130,7 @@ func genC20(seed uint64) *Scenario {
 						dup = true
 					}
 				}
-				if !dup {
+				if !dup || r.Chance(250) { // the same operand twice in one call: sometimes
 					st.J = append(st.J, j)
 				}
 			}
@@ -243,25 +243,34 @@ func runC20(sc *Scenario, keepLog bool) (rep *RunReport) {
 					return
 				}
 				var operands []*validate.Result
+				given := map[int]bool{}
 				for _, j := range st.J {
-					if j < 0 || j >= rs.Slots || !mod[j].live || j == st.I {
+					// a pooled result is released by the merge it is an operand of: handing it in twice, or merging a
+					// pooled receiver into itself, would be the caller's error, not the library's - such operands become nil.
+					// Plain results may be their own operand and may be given twice: merging is defined operand after operand.
+					if j < 0 || j >= rs.Slots || !mod[j].live || (mod[j].pooled && (j == st.I || given[j])) {
 						operands = append(operands, nil)
 						continue
 					}
+					if j == st.I || given[j] {
+						rep.probe("self-or-repeated-operand", 1)
+					}
+					given[j] = true
 					operands = append(operands, res[j])
 					m := &mod[st.I]
+					oe, ow, om := append([]string(nil), mod[j].errs...), append([]string(nil), mod[j].warns...), mod[j].match
 					switch st.Op {
 					case "merge":
-						m.errs = addSet(m.errs, mod[j].errs...)
-						m.warns = addSet(m.warns, mod[j].warns...)
+						m.errs = addSet(m.errs, oe...)
+						m.warns = addSet(m.warns, ow...)
 					case "merge_err":
-						m.errs = addSet(m.errs, mod[j].errs...)
-						m.errs = addSet(m.errs, mod[j].warns...)
+						m.errs = addSet(m.errs, oe...)
+						m.errs = addSet(m.errs, ow...)
 					case "merge_warn":
-						m.warns = addSet(m.warns, mod[j].errs...)
-						m.warns = addSet(m.warns, mod[j].warns...)
+						m.warns = addSet(m.warns, oe...)
+						m.warns = addSet(m.warns, ow...)
 					}
-					m.match += mod[j].match
+					m.match += om
 				}
 				switch st.Op {
 				case "merge":
